@@ -99,6 +99,7 @@ theorem hcFix_err (infos : Array Info) (dyn : Array Dyn) (indices : List Nat) (s
     · exact errIn_error ⟨by decide, by decide⟩
   intro lrAt
   dsimp only
+  refine errIn_ite (errIn_pure _) ?_
   refine errIn_bind (randint_err _ _ _) ?_; intro x0
   refine errIn_ite ?_ ?_ <;>
   ( refine errIn_bind (randint_err _ _ _) ?_; intro x1
